@@ -19,6 +19,7 @@ EXACT_CLASSES = {"Solver", "SolverCacheless", "SolverComposite", "SolverReplacem
 APPROX_CLASSES = {"SolverVSA"}
 
 
+QUERY_OPS = {"sat", "eval", "batch_eval", "min", "max", "solution"}
 STRUCTURAL = {"new", "branch", "drop", "pickle", "add", "merge", "combine", "add_replacement"}
 
 
@@ -325,6 +326,9 @@ class Machine:
                 self.note(idx, op, ["VIOLATION", v.clause])
                 raise
             self.stats["ops"] += 1
+            if self.seam is not None and self.seam.op_checks == 0 and op["op"] in QUERY_OPS and isinstance(ans, list) and \
+                    ans and ans[0] in ("sat", "vals", "tups", "opt", "sol"):
+                self.stats["cache_answers"] = self.stats.get("cache_answers", 0) + 1
             if getattr(self, "finished_elsewhere", False):
                 self.note(idx, op, ans)
                 break
